@@ -101,12 +101,12 @@ static const struct family fams[] = {
 	 {{"I 4 2012", "1-letter"}, {"III 4 2012", "3-letters"}, {"VIII 4 2012", "4-letters"}, {"XII 4 2012", "XII"}, {NULL, NULL}},
 	 {{"", "none", TL_COPY, NULL, 0}, {NULL, NULL, 0, NULL, 0}},
 	 {{"", "line-start"}, {"a ", "blank"}, {NULL, NULL}},
-	 {{"", "end"}, {" x", "blank"}, {NULL, NULL}}, 1, NULL},
+	 {{"", "end"}, {" x", "blank"}, {NULL, NULL}}, 0, NULL},
 	{"roman-all", 7, {"-i", "%Od %Om %OY", "-f", "%F", NULL},
 	 {{"IV III MMXII", "2-letter-day"}, {"XIV III MMXII", "3-letter-day"}, {"XXVIII II MMXII", "6-letter-day"}, {NULL, NULL}},
 	 {{"", "none", TL_COPY, NULL, 0}, {NULL, NULL, 0, NULL, 0}},
 	 {{"", "line-start"}, {"a ", "blank"}, {NULL, NULL}},
-	 {{"", "end"}, {" x", "blank"}, {NULL, NULL}}, 1, NULL},
+	 {{"", "end"}, {" x", "blank"}, {NULL, NULL}}, 0, NULL},
 	{"ordinal-only", 1, {"-i", "%dth", "-f", "<%d>", "-b", "2012-01-01", NULL},
 	 {{"3rd", "1-digit"}, {"21st", "2-digits"}, {NULL, NULL}},
 	 {{"", "none", TL_COPY, NULL, 0}, {" and ", "then-ordinal", TL_VALUE, "4th", 0}, {NULL, NULL, 0, NULL, 0}},
@@ -121,7 +121,7 @@ static const struct family fams[] = {
 	 {{"13b/03/2012", "2-digits"}, {"03b/03/2012", "zero-padded"}, {NULL, NULL}},
 	 {{"", "none", TL_COPY, NULL, 0}, {NULL, NULL, 0, NULL, 0}},
 	 {{"", "line-start"}, {"x ", "blank"}, {NULL, NULL}},
-	 {{"", "end"}, {" y", "blank"}, {NULL, NULL}}, 1, NULL},
+	 {{"", "end"}, {" y", "blank"}, {NULL, NULL}}, 0, NULL},
 	{"T-behind-digits", 7, {"-i", "%Y%m%d%T", "-f", "%FT%T", NULL},
 	 {{"2012030112:34:56", "compact-date-then-time"}, {NULL, NULL}},
 	 {{"", "none", TL_COPY, NULL, 0}, {NULL, NULL, 0, NULL, 0}},
@@ -141,12 +141,12 @@ static const struct family fams[] = {
 	 {{"2012 3 1", "both-padded"}, {"20121231", "none-padded"}, {"2012 312", "month-padded"}, {"201212 1", "day-padded"}, {NULL, NULL}},
 	 {{"", "none", TL_COPY, NULL, 0}, {NULL, NULL, 0, NULL, 0}},
 	 {{"", "line-start"}, {"x ", "blank"}, {NULL, NULL}},
-	 {{"", "end"}, {" y", "blank"}, {NULL, NULL}}, 1, NULL},
+	 {{"", "end"}, {" y", "blank"}, {NULL, NULL}}, 0, NULL},
 	{"blank-padded-time", 1, {"-i", "%H% M% S", "-f", "%T", NULL},
 	 {{"12 4 5", "both-padded"}, {"121314", "none-padded"}, {NULL, NULL}},
 	 {{"", "none", TL_COPY, NULL, 0}, {NULL, NULL, 0, NULL, 0}},
 	 {{"", "line-start"}, {"x ", "blank"}, {NULL, NULL}},
-	 {{"", "end"}, {" y", "blank"}, {NULL, NULL}}, 1, NULL},
+	 {{"", "end"}, {" y", "blank"}, {NULL, NULL}}, 0, NULL},
 	/* calendar names as -i: the time of day behind the date belongs to the value (dadd +1s shows it) */
 	{"calendar-name-ymd", 2, {"-i", "ymd", NULL},
 	 {{"2012-02-29T23:59:59", "date-time"}, {"2012-02-29", "date"}, {NULL, NULL}},
@@ -283,7 +283,7 @@ fam_cmd(char *cmd, size_t csz, const struct family *f, const char *ein)
 static void
 fam_key(char *key, size_t ksz, const struct family *f, const char *kind, int vi, int ti, int pi)
 {
-	size_t k = (size_t)snprintf(key, ksz, "tool=%s family=%s: %s |", TOOLNAME, f->name, kind);
+	size_t k = (size_t)snprintf(key, ksz, "tool=%s family=%s: %s%s", TOOLNAME, f->name, kind, f->keyparts ? " |" : "");
 	if (f->keyparts & 1) {
 		k += (size_t)snprintf(key + k, ksz - k, " value=%s", f->val[vi].label);
 	}
